@@ -461,7 +461,17 @@ REAL_OK = {"init": {0, 2}, "rep_open": {0, 2}, "req_open": {0, 2}, "rep_recvtime
            "after_req_recv": {0}, "after_close": {0}}
 
 
-def real_judge(rc, lines, err):
+def real_judge(rc, lines, err, nb=False):
+    if nb and rc == 0 and lines:
+        # background dial: the dialer redials by itself and REQ resends every 200 ms, so the exchange must get through within
+        # its 3 s time-outs unless one of the calls itself reported NNG_ENOMEM
+        vals = {l.split()[0]: l.split()[1] for l in lines[:-1] if len(l.split()) == 2}
+        if "2" not in vals.values():
+            # (the REPLY may be lost with its connection - one message, documented best effort - and this single-threaded
+            # program answers only once, so only the request's way is demanded)
+            for stp in ("req_send", "rep_recv"):
+                if vals.get(stp, "0") != "0":
+                    return f"wrong-error: {stp} returned {vals[stp]} although no call reported NNG_ENOMEM: the background dialer did not recover"
     if rc != 0:
         return f"crash: exit status {rc} (sanitizer report / panic / watchdog)"
     if not lines or not lines[-1].startswith("fini live=0 badfree=0 "):
@@ -497,7 +507,7 @@ def real_part(tier, seed, v, only=None):
         jobs = [(only["transport"], only["k"])] * 8
         trans, counts = [only["transport"]], {}
     else:
-        trans = ["inproc", "ipc", "tcp"] + (["ws"] if os.environ.get("VERIF_C20_REAL_WS") else [])
+        trans = ["inproc", "ipc", "tcp", "ipc-nb", "tcp-nb"] + (["ws"] if os.environ.get("VERIF_C20_REAL_WS") else [])
         counts = {}
         for (t, _), rc, lines, err in core.parallel_map(one, [(t, 0) for t in trans]):
             m = re.search(r"allocs=(\d+)", lines[-1]) if lines else None
@@ -516,7 +526,7 @@ def real_part(tier, seed, v, only=None):
     for (t, k), rc, lines, err in res:
         if lines and "fired=1" in lines[-1]:
             cnt["fired"] += 1
-        why = real_judge(rc, lines, err)
+        why = real_judge(rc, lines, err, nb=t.endswith('-nb'))
         oc = "ok" if why is None else why.split(":")[0]
         cnt["outcomes"][oc] = cnt["outcomes"].get(oc, 0) + 1
         if why is None:
